@@ -8,13 +8,57 @@ TEXTR = "render::text_renderer::TextRenderer"
 RTRAIT = "<render::text_renderer::SubRenderer<D> as render::Renderer>::"
 
 
+def norm_callee(name):
+    """`<A as B>::m` -> `B::m` (trait-qualified paths lose their Self type)"""
+    if name and name.startswith("<") and " as " in name:
+        depth = 0
+        for i, ch in enumerate(name):
+            if ch == "<":
+                depth += 1
+            elif ch == ">":
+                depth -= 1
+                if depth == 0:
+                    inner = name[1:i]
+                    # split at the top-level " as "
+                    d2 = 0
+                    for j in range(len(inner)):
+                        if inner[j] == "<":
+                            d2 += 1
+                        elif inner[j] == ">":
+                            d2 -= 1
+                        elif d2 == 0 and inner[j:j + 4] == " as ":
+                            return inner[j + 4:] + name[i + 1:]
+                    break
+    return name
+
+
 def ends(name, *sufs):
     if name is None:
         return False
+    nn = norm_callee(name)
     for s in sufs:
-        if name == s or name.endswith("::" + s) or name.endswith(s):
-            return True
+        for n in (name, nn):
+            if n == s or n.endswith("::" + s) or n.endswith(s):
+                return True
     return False
+
+
+def find_dispatch(b, ty_suffix, min_targets=3, after=None):
+    """The switch on the discriminant of a place whose type ends with ty_suffix that dominates all
+    other such switches (the `match`, not the drop ladders that drop elaboration adds later)."""
+    cands = []
+    for a in sorted(b.reachable()):
+        t = b.term(a)
+        if t["k"] != "switch" or len(t["targets"]) < min_targets:
+            continue
+        neg, src = b.switch_source(a)
+        if src[0] == "discr" and src[1]["ty"].endswith(ty_suffix):
+            if after is None or b.dominates(after, a):
+                cands.append(a)
+    for c in cands:
+        if all(b.dominates(c, o) for o in cands):
+            return c
+    raise AnchorMissing("no dominating dispatch on %s in %s" % (ty_suffix, b.id))
 
 
 def is_callee(t, *names):
@@ -264,3 +308,36 @@ def has_call(at, *sufs):
 
 def has_field(at, owner, name):
     return any(a[0] == "field" and a[2] == name and ends(a[1], owner) for a in at)
+
+
+def unreachable_without_edges(b, bb, cut):
+    """True iff every path from entry to bb uses one of the edges in `cut` (set of (a, s))."""
+    if not cut:
+        return False
+    seen = set()
+    st = [0]
+    while st:
+        x = st.pop()
+        if x in seen:
+            continue
+        seen.add(x)
+        if x == bb:
+            return False
+        for s in b.succ(x):
+            if (x, s) in cut or b.is_cleanup(s):
+                continue
+            st.append(s)
+    return True
+
+
+def edges_where(b, pred):
+    """edges (a, s) of bool-like switches for which pred(truth, src, a, s) holds"""
+    out = set()
+    for a in b.reachable():
+        if b.term(a)["k"] != "switch":
+            continue
+        for s in b.succ(a):
+            truth, src = edge_is_true(b, a, s)
+            if pred(truth, src, a, s):
+                out.add((a, s))
+    return out
